@@ -426,4 +426,9 @@ def c_derivative(chk):
                             # the finite-difference helper must be applied at the out-of-range entries only
                             xs_fd = [t for e in fdcalls for t in as_array(e["x"]).reshape(-1)]
                             good = good and x in xs_fd and all(t in (a, b) and region_of(p.pc, t) != "inside" for t in xs_fd)
+                            # ... and what it differentiates there is the evaluation that respects the per-side mode (the same rule as
+                            # evaluate() outside the table), not the bare function
+                            from wgvc.interp import BoundMethod
+                            good = good and all(isinstance(e["f"], BoundMethod) and e["f"].name == "_evaluateOutOfBounds" and e["f"].obj is p.state["o"]
+                                                for e in fdcalls)
                 chk.vc(f"derivative.{tag}.elementwise-rule.{i}", p.pc, sym.to_sym(bool(good)), func=fn, meta={"regions": regs})
